@@ -165,7 +165,7 @@ def search_inputs(rng):
 class Sim:
     """one proxied circuit between viewer V (near) and simulator S (far), driven event by event"""
 
-    def __init__(self, maxlen=10000):
+    def __init__(self, maxlen=10000, resend_every=None):
         import hippolyzer.lib.base.message.circuit as bc
         from hippolyzer.lib.proxy.circuit import ProxiedCircuit, InjectionTracker
         self.clock = FakeClock()
@@ -175,6 +175,9 @@ class Sim:
         self.tr = RecTransport()
         self.near, self.far = ("127.0.0.1", 1), ("10.0.0.9", 2)
         self.c = ProxiedCircuit(self.near, self.far, self.tr)
+        if resend_every is not None:
+            self.c.resend_every = resend_every       # the cadence is configurable: integral, fractional and sub-second intervals
+        self._ticks = 0
         self.c.in_injections = InjectionTracker(0, maxlen=maxlen)
         self.c.out_injections = InjectionTracker(0, maxlen=maxlen)
         self.ep = {e: {"next": 1, "sent": set(), "inbox": [], "acks_seen": [], "got": []} for e in "VS"}
@@ -248,6 +251,12 @@ class Sim:
             msg = Message("PacketAck", *[Block("Packets", ID=a) for a in body], packet_id=pid, direction=self._dir(e),
                           acks=tuple(appended), flags=(PacketFlags.ACK if appended else 0))
             reliable = False
+        elif kind == "ping_old":
+            # a ping naming an OLDER packet of the sender as its oldest unacknowledged one (injections may lie in between)
+            olds = sorted(x for x in st["sent"] if x != pid)
+            old_id = olds[0] if olds else pid + 1
+            msg = Message("StartPingCheck", Block("PingID", PingID=pid % 256, OldestUnacked=old_id), packet_id=pid, direction=self._dir(e),
+                          acks=tuple(acks), flags=(PacketFlags.ACK if acks else 0))
         elif kind == "ping":
             # a ping that names the sender's oldest unacknowledged packet: with nothing outstanding that is the ID it will use next
             msg = Message("StartPingCheck", Block("PingID", PingID=pid % 256, OldestUnacked=pid + 1), packet_id=pid, direction=self._dir(e),
@@ -290,6 +299,16 @@ class Sim:
                         if m.packet_id in self.wire_to_orig[e] and self.wire_to_orig[e][m.packet_id] != pid:
                             self.err(f"packet {pid} from {e} went out under wire ID {m.packet_id}, already used for its packet {self.wire_to_orig[e][m.packet_id]}")
                         self.wire_to_orig[e][m.packet_id] = pid
+                        if kind == "ping_old" and m.name == "StartPingCheck":
+                            # the embedded ID is translated like a packet ID: it names the wire ID its packet went out under, unless the
+                            # proxy itself has an older unacknowledged reliable packet in that direction
+                            rev = {o_: w_ for w_, o_ in self.wire_to_orig[e].items()}
+                            if old_id in rev:
+                                own = [w_ for w_, r_ in self.injected[o].items() if r_["reliable"] and not r_["acked"] and not r_["given_up"]]
+                                want_old = min([rev[old_id]] + own)
+                                if m["PingID"]["OldestUnacked"] != want_old:
+                                    self.err(f"StartPingCheck from {e} names its packet {old_id} (wire ID {rev[old_id]}) as oldest unacknowledged; "
+                                             f"forwarded with OldestUnacked={m['PingID']['OldestUnacked']}, expected {want_old}")
             else:
                 shown_e += self._deliver(e, m)
         if sorted(shown_o) != sorted(expect):
@@ -334,8 +353,11 @@ class Sim:
 
     def tick(self):
         """advance past the resend interval and run the resend pass"""
-        self.clock.advance(self.c.resend_every + 0.5)
-        self.trace.append(("P", "tick"))
+        # every sweep comes after more than the interval has passed: by a little, by a fraction, by more than a day
+        gap = (0.5, 0.05, 0.25, 86400.0 + 2.0, 0.75)[self._ticks % 5]
+        self._ticks += 1
+        self.clock.advance(self.c.resend_every + gap)
+        self.trace.append(("P", "tick", self.c.resend_every, gap))
         try:
             self.c.resend_unacked()
         except Exception as ex:  # noqa
@@ -384,6 +406,7 @@ EVENTS = [
     ("V", True, (0,), False, True), ("S", True, (0,), False, True), ("V", False, (0, 1, 2), True, False), ("S", False, (0, 1, 2), True, False),
     ("inject", "V", True), ("inject", "S", True), ("inject", "S", False), ("tick",),
     ("V", False, (0, 1, 2), 2, False), ("S", False, (0, 1, 2), 2, False),
+    ("V", False, (), False, False, "ping_old"), ("S", False, (), False, False, "ping_old"),
     ("V", False, (), False, False, "ping"), ("S", False, (0,), False, False, "ping"), ("V", True, (), False, False, "resent"), ("S", True, (0,), False, False, "resent"),
 ]
 
@@ -405,9 +428,9 @@ def bounded_circuit_histories(reg, tier, seed):
     walks, walk_len = (150, 40) if tier == "quick" else (1500, 60)
     evals, failures, seen, samples = 0, [], set(), []
 
-    def run_seq(seq):
+    def run_seq(seq, resend_every=None):
         nonlocal evals
-        sim = Sim()
+        sim = Sim(resend_every=resend_every)
         try:
             for ev in seq:
                 apply(sim, ev)
@@ -431,7 +454,7 @@ def bounded_circuit_histories(reg, tier, seed):
         for w in range(walks):
             seq = tuple(rng.randrange(len(EVENTS)) for _ in range(walk_len))
             seen.add(seq)
-            sim = run_seq([EVENTS[i] for i in seq])
+            sim = run_seq([EVENTS[i] for i in seq], resend_every=rng.choice([None, None, 0.5, 2.5, 0.25]))
             if w < 2:
                 samples.append([str(t) for t in sim.trace[:8]])
             if sim.errors and len(failures) < 5:
@@ -441,8 +464,8 @@ def bounded_circuit_histories(reg, tier, seed):
     finally:
         loop.close()
     return {"name": "proxied-circuit-histories", "evaluations": evals, "distinct_nontrivial": len(seen),
-            "rule": f"all event sequences up to length {depth} over an 18-letter alphabet (viewer/sim send reliable/unreliable with piggy-backed or "
-                    f"PacketAck acks, StartPingCheck naming the next unused ID, first sighting already RESENT, proxy drops, proxy injects either way, clock tick past the resend interval) + {walks} seeded random walks of "
+            "rule": f"all event sequences up to length {depth} over a 20-letter alphabet (viewer/sim send reliable/unreliable with piggy-backed or "
+                    f"PacketAck acks, StartPingCheck naming the next unused ID or an older packet, first sighting already RESENT, proxy drops, proxy injects either way, clock tick past the resend interval) + {walks} seeded random walks of "
                     f"length {walk_len}; distinct = distinct event sequences; monitors: wire IDs never shared between forwarded and injected packets, acks shown only for own IDs, exactly the expected ones, "
                     "injected acks never forwarded, drop => ack to sender, resend with same ID + RESENT until acked or 10 tries, completion exactly then",
             "bounded": True, "bounds": {"depth": depth, "walks": walks, "walk_len": walk_len}, "samples": samples, "failures": failures}
